@@ -275,6 +275,7 @@ func checkC18(c *Check) {
 			"the cookie reader also accepts a cookie that is not named by the filter's own cookie name ("+why+"): another filter's session cookie is honoured")
 	}
 	discoveryCacheKeyRule(c, "C18.R3")
+	cookieNameIsInjective(c, "C18.R1", R)
 	transportIsOwn(c, "C18.R3")
 	// the key set a filter verifies with is derived from its own configuration (C02.R5's key-set provenance)
 	importObls(c, "C02", checkC02, "C18.R3", func(o *Obligation) bool { return strings.HasPrefix(o.Key, "C02.R5/keyset") })
